@@ -3,6 +3,7 @@ from rules.v2common import *
 from rules import C06
 
 LEVEL = 'other'
+FIXTURES = ['F3', 'F1']
 
 
 def run(ctx, R):
@@ -26,6 +27,8 @@ def run(ctx, R):
                 for x in atoms:
                     if not T.mentions(x, n) and not any(t == n for t in T.subterms(x)):
                         continue
+                    if solver.entails([], x):
+                        continue        # a tautology under the type bounds (e.g. the no-overflow side condition len <= usize::MAX + 16)
                     n_guard += 1
                     ok = x[0] == 'ge0' and T.to_lin(x[1])[1].get(n, 0) > 0 and not any(T.mentions(k, n) for k in T.to_lin(x[1])[1] if k != n)
                     if not ok:
